@@ -16,7 +16,7 @@ requests
           | ["copy",r',r,des,tgt|null] | ["drop",r] | ["kid",r',r,i] | ["entat",r',m,i]
           | ["brushat",r',m,i] | ["spawn",r',m] | ["setnode",r,node] | ["delnode",r] | ["popnode",r]
           | ["group",r,m,des] | ["vis",r,m,des,[kidRegs]] | ["fxset",r,var] | ["fxdel",r,var]
-          | ["parse",Doc] | ["failsolid",m,des]
+          | ["parse",Doc] | ["failsolid",m,des] | ["failent",m,des] | ["failside",m,des]
      node = null | "raw" | int
      Doc  = {"vis":[[id,nkids]…],"world":id,"wsolids":[[id,[sideIds]]…],"groups":[ids],
              "ents":[[id,node,[[id,[sideIds]]…],[[var,idx]…]]…]}
@@ -97,6 +97,8 @@ def opOf (j : Json) : Except String Op := do
   | "fxdel" => pure (.fxdel (← n 1) (← n 2))
   | "parse" => pure (.parse (← docOf (a[1]!)))
   | "failsolid" => pure (.failsolid (← n 1) (← z 2))
+  | "failent" => pure (.failent (← n 1) (← z 2))
+  | "failside" => pure (.failside (← n 1) (← z 2))
   | _ => throw s!"unknown history op {name}"
 
 def dumpObj (s : St) : Nat → Nat → Json
